@@ -609,6 +609,24 @@ func checkAolListAccessorsWholeFamily(p *Prog, r *Report, kp func(string, string
 		n2++
 		o := NewOrigin(p, so.Fn)
 		e0, e1 := emptyBytes(o.Of(args[0])), emptyBytes(o.Of(args[1]))
+		if !e0 && !e1 {
+			// a two-sided range: each bound is an encoded (partial) key of the family, or the SDK's PrefixEndBytes of one — a
+			// hand-made end ("last byte plus one") is not the end of the prefix when that byte is 0xFF
+			okB, bad := true, ""
+			for _, a := range args {
+				t := o.Of(a)
+				for t.Op == "res" && len(t.Args) == 1 {
+					t = t.Args[0]
+				}
+				isEnc := t.Op == "call" && strings.Contains(t.Name, "types/compkey.") && strings.Contains(t.Name, "ncode")
+				isEnd := t.Op == "call" && strings.HasSuffix(t.Name, "PrefixEndBytes")
+				if !isEnc && !isEnd {
+					okB, bad = false, t.String()
+				}
+			}
+			r.Check(okB, kp("LOOP", FuncName(so.Fn)+"#"+so.Op+"-bounds-are-encoded-keys"), "the bounds of a range inside a family's store are encoded keys of the family or the SDK's PrefixEndBytes of one", p.Pos(so.Instr.Pos()),
+				"encoded keys", fmt.Sprintf("%s bounds its walk with %s, which is neither an encoded key nor PrefixEndBytes of one: a hand-made end of a prefix (last byte plus one) is wrong for a prefix that ends in 0xFF — such owners' or topics' entries fall outside the range", FuncName(so.Fn), clip(bad, 160)))
+		}
 		r.Check(e0 == e1, kp("LOOP", FuncName(so.Fn)+"#"+so.Op+"-bounded-on-both-sides-or-neither"), "an iteration inside a family's store has both bounds or none (a one-sided range leaves the prefix it started in)", p.Pos(so.Instr.Pos()),
 			"both or neither", fmt.Sprintf("%s calls %s(%s, %s): the walk is not confined to the entries that share the bounded side's prefix — the first entry it meets may belong to another topic or owner", FuncName(so.Fn), so.Op, o.Of(args[0]), o.Of(args[1])))
 	}
